@@ -538,6 +538,25 @@ Proof.
   destruct (settle' n1 ds) as [n2 o2]. cbn [snd] in *. apply rq_app; assumption.
 Qed.
 
+Lemma settle_app_rq n ds : rq (snd (fst (settle_app n ds))).
+Proof.
+  unfold settle_app.
+  pose proof (io_iteration_rq n ds) as H2. destruct (io_iteration n ds) as [[n2 o2] ds'].
+  pose proof (flush_rq n2) as H3. destruct (flush n2) as [n3 o3].
+  cbn [fst snd] in *. apply rq_app; assumption.
+Qed.
+Lemma settle_app'_rq n ds : rq (snd (settle_app' n ds)).
+Proof.
+  unfold settle_app'. pose proof (settle_app_rq n ds) as H. destruct (settle_app n ds) as [[n1 o1] d]. exact H.
+Qed.
+
+Lemma rq_then_settle_app (r : node * list output) ds :
+  rq (snd r) -> rq (snd (let '(n1, o1) := r in let '(n2, o2) := settle_app' n1 ds in (n2, (o1 ++ o2)%list))).
+Proof.
+  destruct r as [n1 o1]. intros H1. pose proof (settle_app'_rq n1 ds) as H2.
+  destruct (settle_app' n1 ds) as [n2 o2]. cbn [snd] in *. apply rq_app; assumption.
+Qed.
+
 Lemma step_rq n ds e :
   (forall cid ms, e <> ERecv cid ms) -> (forall i m, e <> EAppAnswer i m) -> rq (snd (step n ds e)).
 Proof.
@@ -590,7 +609,7 @@ Proof.
     destruct (p_conn p) as [cid|]; [|cbn [snd]; apply rq_cons_other; [reflexivity|apply rq_nil]].
     destruct (get_conn n0 cid) as [c|]; [|cbn [snd]; apply rq_cons_other; [reflexivity|apply rq_nil]].
     destruct (if o_hbh m =? 0 then _ else _) as [n1 hbh].
-    apply rq_then_settle. apply rq_send. reflexivity.
+    apply rq_then_settle_app. apply rq_send. reflexivity.
   - (* EStop *)
     unfold step. cbv zeta. destruct force; [apply rq_nil|].
     apply rq_then_settle.
